@@ -159,15 +159,6 @@ theorem inert_deep (want : AOp → Bool) (e : AExpr) : ∀ d, Inert want (printA
 theorem inert_paren_top (want : AOp → Bool) (e : AExpr) : Inert want (paren (printArith e)) 0 :=
   Inert.wrap (inert_deep want e 0)
 
-/-- root is `+`/`-` -/
-def AExpr.isAddBin : AExpr → Bool
-  | .bin op _ _ => op.isAdd
-  | _ => false
-
-def AExpr.isBin : AExpr → Bool
-  | .bin _ _ _ => true
-  | _ => false
-
 theorem needParenL_mul {op : AOp} (hop : op.isAdd = false) (l : AExpr) : needParenL op l = l.isAddBin := by
   cases l with
   | bin lo a b => cases op <;> cases lo <;> simp_all [needParenL, AExpr.isAddBin, AOp.prec, AOp.isAdd]
